@@ -114,7 +114,7 @@ func normItems(items []KItem) []KItem {
 			a := out[len(out)-1].V
 			if sa, ok := a.concrete(); ok {
 				if sb, ok := it.V.concrete(); ok {
-					out[len(out)-1] = KItem{V: view{FnConst{[]byte(sa + sb)}, c0, c64(len(sa) + len(sb))}}
+					out[len(out)-1] = KItem{V: view{FnConst{sa + sb}, c0, c64(len(sa) + len(sb))}}
 					continue
 				}
 			}
@@ -343,7 +343,7 @@ func (e *Exec) copyBytes(b Bytes) Bytes {
 		return b
 	}
 	nb := e.newBuf(b.Buf.Fn, b.Buf.Size)
-	return Bytes{Buf: nb, Off: b.Off, Len: b.Len, Cap: b.Len, Blob: b.Blob, Segs: b.Segs}
+	return Bytes{Buf: nb, Off: b.Off, Len: b.Len, Cap: b.Len, Blob: b.Blob, Segs: b.Segs, Sig: b.Sig}
 }
 
 // makeIter selects the entries under ref.Prefix+extra, in a symbolic order.
